@@ -48,6 +48,20 @@ def enumerate_states(module, cfg, name, workers=TLC_WORKERS, timeout=3000, heap=
     return st
 
 
+def tlc_batch(jobs):
+    """several independent TLC runs, at most MAX_PARALLEL_JVMS at a time.  jobs: dicts with module, cfg, name and either dump=True
+    (enumeration: errors and time-outs are MachineryErrors) or dump=False (plain run, e.g. a must-fail sensitivity variant; extra
+    keywords go to run_tlc).  -> stats in the order of the jobs"""
+    def one(j):
+        j = dict(j)
+        if j.pop("dump", True):
+            return enumerate_states(j.pop("module"), j.pop("cfg"), j.pop("name"), **j)
+        return run_tlc(j.pop("module"), j.pop("cfg"), j.pop("name"), **j)
+    with ThreadPoolExecutor(max_workers=MAX_PARALLEL_JVMS) as ex:
+        futs = [ex.submit(one, j) for j in jobs]
+        return [f.result() for f in futs]
+
+
 REC_CFG = "SPECIFICATION RecSpec\nINVARIANT Report\nCHECK_DEADLOCK FALSE\n"
 
 
